@@ -419,6 +419,9 @@ class StyleAttribute(object):
         '''
         if isinstance(styleValue, StyleAttribute):
             styleValue = tostr(styleValue)
+        elif styleValue is None:
+            # A value-less style attribute ( e.x. <div style> ) is an empty style
+            styleValue = ''
 
         self._styleValue = styleValue
         self._styleDict = StyleAttribute.styleToDict(styleValue)
